@@ -63,8 +63,8 @@ def Exec.strip : Exec → Exec
   | e => e
 
 /-- `KeyError` (node label lookup), `AttributeError` (channel label lookup), `RuntimeError` (locked
-input), `TypeError` (class mismatch) -/
-inductive Err | key | attr | runtime | type
+input), `TypeError` (class mismatch), `ChannelConnectionError` (a stored connection is refused) -/
+inductive Err | key | attr | runtime | type | conn
   deriving DecidableEq, Repr, Inhabited
 
 /-- a data channel as far as its `__dict__` goes (label, value, `strict_hints`) -/
@@ -104,6 +104,10 @@ structure Core where
   detached : Option Path
   /-- `provenance_by_execution` -/
   prov : List Lbl
+  /-- the data connections among this composite's children that `_valid_connection` would refuse NOW
+  (they were accepted when made: the receiving input was not strict then, or a hint was changed
+  since) — `(input, output)` pairs -/
+  refused : List (Addr × Addr)
   deriving DecidableEq, Repr, Inhabited
 
 def updA {α} (f : Addr → α) (a : Addr) (v : α) : Addr → α := fun x => if x = a then v else f x
@@ -145,12 +149,16 @@ structure Cfg where
   /-- repaired: `Composite.__setstate__` keeps `_cached_inputs` (pinned: every re-adopted child calls
   back `add_child`, which resets it "after graph change") -/
   keepCache : Bool
+  /-- pinned: the connections are re-created with `connect`, which validates the type hints again and
+  refuses what it would not accept today (`ChannelConnectionError`: the graph cannot be loaded);
+  repaired: a stored connection is re-created as it was -/
+  revalidate : Bool
   deriving DecidableEq, Repr
 
 /-- the tree before the repairs of `fixes/C07-*.patch` (as of /repo commit bba6c5f) -/
-def Cfg.pinned : Cfg := ⟨false, false, false, true, true, false⟩
+def Cfg.pinned : Cfg := ⟨false, false, false, true, true, false, true⟩
 /-- with `fixes/C07-*.patch` applied — the tree as it is since /repo commit 200d3d9 -/
-def Cfg.repaired : Cfg := ⟨true, true, false, false, false, true⟩
+def Cfg.repaired : Cfg := ⟨true, true, false, false, false, true, false⟩
 
 /-- does `__setstate__` of a node of this kind push through input / output links? -/
 def Cfg.pushesIn (cfg : Cfg) (k : Kind) : Bool := if k = .forLoop then cfg.pushFor else cfg.pushIn
@@ -325,6 +333,8 @@ def setstate (cfg : Cfg) (c : Core) (cs : List Node) (ds ss fo : List (Addr × A
     match firstBad (childLabels cs) (inDom cs) (outDom cs) ds with
     | some e => .error e
     | none =>
+    if cfg.revalidate && ds.any (fun p => decide (p ∈ c.refused)) then .error .conn
+    else
     match firstBad (childLabels cs) (sInDom cs) (sOutDom cs) ss with
     | some e => .error e
     | none =>
@@ -422,6 +432,35 @@ def loadViewed (cfg : Cfg) (view : List Addr) (n : Node) : Except Err Node :=
   | .error e => .error e
   | .ok g => .ok (wipeView view g)
 
+/-- `Node.load` since /repo dcaa030: who owns the node is not part of what a load restores —
+`_parent` and `_detached_parent_path` stay the loading node's own (`own = some d`); before, the
+stored detached path was adopted with the rest of the state (`own = none`) -/
+def fileLoadAt (cfg : Cfg) (selfCls : Nat) (own : Option (Option Path)) (p : PNode) : Except Err Node :=
+  match fileLoad cfg selfCls p, own with
+  | .error e, _ => .error e
+  | .ok (.mk c ch dg sg), some d => .ok (.mk { c with detached := d } ch dg sg)
+  | .ok n, none => .ok n
+
+/-! ## the two files of one save location -/
+
+/-- `<name>.pckl` (plain pickle) and `<name>.cpckl` (cloudpickle fallback) -/
+structure Slots where
+  pckl : Option PNode
+  cpckl : Option PNode
+
+/-- `PickleStorage._save`: a graph whose classes can all be imported goes to `.pckl`, otherwise plain
+pickle fails and the fallback writes `.cpckl`; after a successful write the file with the OTHER suffix
+is removed (`dropOther`; a storage that leaves it behind keeps a stale `.pckl` that `_load` prefers) -/
+def Slots.save (dropOther : Bool) (s : Slots) (importable : Bool) (p : PNode) : Slots :=
+  if importable then ⟨some p, if dropOther then none else s.cpckl⟩
+  else ⟨if dropOther then none else s.pckl, some p⟩
+
+/-- `PickleStorage._load`: the first existing of `.pckl`, `.cpckl` -/
+def Slots.read (s : Slots) : Option PNode :=
+  match s.pckl with
+  | some p => some p
+  | none => s.cpckl
+
 /-! ## `child.load()` in place: a node that has a parent loads a saved state -/
 
 def replaceChild (cs : List Node) (l : Lbl) (n : Node) : List Node :=
@@ -432,12 +471,12 @@ still name the old ones -/
 def clearChild (g : CG) (l : Lbl) : CG :=
   ⟨fun a => if a.1 = l then [] else g.inl a, fun o => if o.1 = l then [] else g.outl o⟩
 
-/-- `parent.children[l].load()` of the file `child.save()` wrote.  `keepPlace = false`: the node adopts
+/-- `parent.children[l].load()` of the file `child.save()` wrote.  `keepPlace = 0`: the node adopts
 the stored state as it is — `_parent = None`, the detached path, fresh channels — while its parent
-keeps listing it and its neighbours stay connected to the discarded channels; `keepPlace = true`
-(fixes/C07-load-in-place-keeps-place.patch): parent kept, whatever was attached to the old channels is
-attached to the loaded ones. -/
-def loadInPlace (cfg : Cfg) (keepPlace : Bool) (pp : Option Path) : Node → Lbl → Except Err Node
+keeps listing it and its neighbours stay connected to the discarded channels; `1` (/repo dcaa030): the
+parent is kept, the channels are still the fresh ones; `2` (fixes/C07-load-in-place-keeps-place.patch):
+whatever was attached to the old channels is attached to the loaded ones. -/
+def loadInPlace (cfg : Cfg) (keepPlace : Nat) (pp : Option Path) : Node → Lbl → Except Err Node
   | .mk c ch dg sg, l =>
     match ch.find? fun x => x.core.label = l with
     | none => .error .key
@@ -445,8 +484,12 @@ def loadInPlace (cfg : Cfg) (keepPlace : Bool) (pp : Option Path) : Node → Lbl
       match fileLoad cfg child.core.cls (save (some (lexPath (c.forState pp).detached c.label)) child) with
       | .error e => .error e
       | .ok loaded =>
-        if keepPlace then .ok (.mk c (replaceChild ch l loaded.adopt) dg sg)
-        else .ok (.mk c (replaceChild ch l loaded) (clearChild dg l) (clearChild sg l))
+        if keepPlace ≥ 2 then .ok (.mk c (replaceChild ch l loaded.adopt) dg sg)
+        else
+          -- the loaded output channels forward to nobody: the parent's output links from this child are gone
+          .ok (.mk { c with outLinks := c.outLinks.filter fun k => k.1.1 ≠ l }
+            (replaceChild ch l (if keepPlace = 1 then loaded.adopt else loaded))
+            (clearChild dg l) (clearChild sg l))
 
 mutual
 /-- can the graph be pickled at all?  `For._input_value_links` reads `c.value_receiver.owner` of EVERY
